@@ -287,7 +287,7 @@ def main(tier):
     rep = Report("C11", tier, "model_checking")
     quick = tier == "quick"
     variant = "ossl-asan" if quick else "ossl-plain"
-    deadline = time.time() + (170 if quick else 1700)
+    deadline = time.time() + (600 if quick else 1700)
     cfgs = [("<=2 sessions on A, 1 on B, <=2 live objects", dict(max_a=2, max_b=1, max_objs=2), 6, 3)] if quick else \
            [("<=2 sessions on A, 1 on B, <=3 live objects", dict(max_a=2, max_b=1, max_objs=3), 7, 4),
             ("<=3 sessions on A, 1 on B, <=2 live objects", dict(max_a=3, max_b=1, max_objs=2), 6, 0)]
